@@ -109,7 +109,7 @@ def run():
                       {"src": rq["src"], "observed": ev, "expected_between_70_and_71": wanted})
     fout = run_cases([{"id": f"w{k}", "src": src} for k, (src, _) in enumerate(FIRST_WINS)], label="C08 first occurrence wins")
     for k, (src, want) in enumerate(FIRST_WINS):
-        if fout[f"w{k}"]["end"] != want:
+        if fout[f"w{k}"]["end"] != want and not fout[f"w{k}"]["end"].startswith(("discarded:", "fuel:")):
             ck.reject("C08:first-occurrence-wins", f"{src!r} gives {fout[f'w{k}']['end']}; with the first occurrence of every key winning it is {want}",
                       {"src": src, "observed": fout[f"w{k}"]["end"], "expected": want})
     # repetition: same parsed program N times in one process, re-parsed, and in n_proc different processes
@@ -121,6 +121,8 @@ def run():
         ck.rng.shuffle(reqs)
         out = run_cases(reqs, label=f"C08 repeat p{proc}", nproc=4 + proc)
         for rid, tag, s in srcs:
+            if str(out[rid]["end"]).startswith(("discarded:", "fuel:")):
+                continue                  # not evaluated to the end (deadline): nothing to compare
             runs = distinct_runs(out[rid])
             total_runs += n_rep
             first.setdefault(rid, runs[0])
